@@ -9,7 +9,9 @@ import (
 	"os"
 	"os/exec"
 	"path/filepath"
+	"regexp"
 	"strings"
+	"sync/atomic"
 	"time"
 
 	"verifsim/core"
@@ -52,8 +54,11 @@ func runChild(o childOpts) childOut {
 		"VERIF_TAPE_FILE=" + o.TapeFile, fmt.Sprintf("GOMAXPROCS=%d", gmp),
 		"GODEBUG=randseednop=0", "GORACE=atexit_sleep_ms=0 halt_on_error=0 history_size=4",
 		"PATH=" + os.Getenv("PATH"), "HOME=" + os.Getenv("HOME"), "TMPDIR=" + os.TempDir(),
-		"VERIF_REPO=" + repoDir(),
+		"VERIF_REPO=" + repoDir(), "VERIF_SEED=" + os.Getenv("VERIF_SEED"),
 	}
+	markFile := filepath.Join(os.TempDir(), fmt.Sprintf("verifsim-mark-%d-%d", os.Getpid(), markSeq.Add(1)))
+	env = append(env, "VERIF_MARK_FILE="+markFile)
+	defer os.Remove(markFile)
 	cmd.Env = append(env, o.ExtraEnv...)
 	var so, se bytes.Buffer
 	cmd.Stdout, cmd.Stderr = &so, &se
@@ -89,7 +94,60 @@ func runChild(o childOpts) childOut {
 		}
 	}
 	applyRaces(&out)
+	if out.Res == nil && o.Mode == "run" && !out.TimedOut {
+		applyCrash(&out, markFile)
+	}
 	return out
+}
+
+var markSeq atomic.Int64
+
+var fatalRe = regexp.MustCompile(`(?m)^(fatal error|panic|runtime: out of memory|SIGSEGV)[: ].*$`)
+
+// applyCrash turns the death of a child into a judged result when the engine had marked what it
+// was delivering: a fatal runtime error (stack exhaustion, out of memory, concurrent map access)
+// cannot be recovered inside the child, but it is still the code under test that failed.
+func applyCrash(o *childOut, markFile string) {
+	mb, err := os.ReadFile(markFile)
+	if err != nil || len(mb) == 0 {
+		return
+	}
+	mb = bytes.TrimRight(mb, " \n\x00")
+	var mk struct {
+		Engine string          `json:"engine"`
+		Point  string          `json:"point"`
+		Tape   json.RawMessage `json:"tape"`
+		What   string          `json:"what"`
+	}
+	if json.Unmarshal(mb, &mk) != nil || len(mk.Tape) == 0 {
+		return
+	}
+	msg := "process died"
+	if m := fatalRe.FindString(o.Stderr); m != "" {
+		msg = m
+		if len(msg) > 80 {
+			msg = msg[:80]
+		}
+	}
+	frame := "?"
+	for _, ln := range strings.Split(o.Stderr, "\n") {
+		t := strings.TrimSpace(ln)
+		if strings.HasPrefix(t, "github.com/jcmturner/") {
+			frame = strings.TrimPrefix(t, "github.com/jcmturner/")
+			if i := strings.LastIndex(frame, "("); i > 0 {
+				frame = frame[:i]
+			}
+			break
+		}
+	}
+	sig := "crash|" + mk.Point + "|" + frame + "|" + strings.SplitN(msg, ":", 3)[0]
+	if parts := strings.SplitN(msg, ": ", 2); len(parts) == 2 {
+		sig = "crash|" + mk.Point + "|" + frame + "|" + parts[1]
+	}
+	o.Res = &core.Result{Engine: mk.Engine, Verdict: "violation", Evals: 1, Class: "crash", Nontrivial: true, Tape: mk.Tape,
+		Violations: []core.Violation{{Signature: sig, Detail: core.MustJSON(map[string]string{"delivery": mk.What, "stderr": tail(o.Stderr, 1500), "exit": fmt.Sprint(o.ExitCode)})}},
+		Stats:      map[string]int64{"crashed_children": 1}, Faults: map[string]int{}, Probes: map[string]int{}}
+	o.Raw = string(core.MustJSON(o.Res))
 }
 
 func getMeta(bin string) (core.Meta, error) {
